@@ -22,14 +22,14 @@ units = [
     u("C07_variant_3", "harness/C07_variant.cpp", 1),
     u("C07_variant_4", "harness/C07_variant.cpp", 2),
     u("C07_variant_mo", "harness/C07_variant.cpp", 3),
-    u("C07_variant_rep_tcm", "harness/C07_variant.cpp", 4),
-    u("C07_variant_rep_int", "harness/C07_variant.cpp", 5),
-    u("C07_variant_rep_str", "harness/C07_variant.cpp", 6),
+    u("C07_variant_rep_tcm", "harness/C07_variant.cpp", 4, fl=FL1),
+    u("C07_variant_rep_int", "harness/C07_variant.cpp", 5, fl=FL1),
+    u("C07_variant_rep_str", "harness/C07_variant.cpp", 6, fl=FL1),
     u("C07_expected_int", "harness/C07_expected.cpp", 0),
     u("C07_expected_tracked", "harness/C07_expected.cpp", 1),
-    u("C07_expected_same_tcm", "harness/C07_expected.cpp", 2),
-    u("C07_expected_same_str", "harness/C07_expected.cpp", 3),
-    u("C07_expected_conv", "harness/C07_expected.cpp", 4),
+    u("C07_expected_same_tcm", "harness/C07_expected.cpp", 2, fl=FL1),
+    u("C07_expected_same_str", "harness/C07_expected.cpp", 3, fl=FL1),
+    u("C07_expected_conv", "harness/C07_expected.cpp", 4, fl=FL1),
     u("C07_select", "harness/C07_select.cpp", shards=(1, 1), fl=FL1),
     u("C07_unordered", "harness/C07_unordered.cpp", shards=(1, 1), fl=FL1),
     u("C07_members", "harness/C07_members.cpp", shards=(1, 1), fl=FL),
